@@ -27,7 +27,7 @@ from . import c01
 from ..gram import S, Asg, Rule, Ref, Str
 
 PROP = 'C22'
-WS_ALL = [' ', '\t', '\n']
+WS_ALL = [' ', '\t', '\n', '\r']
 
 EXTRA = [
     corpus.G('skipws-rule-under-global-noskipws',
@@ -44,6 +44,10 @@ EXTRA = [
     corpus.G('single-match-rule-ws',
              [Rule('M', S(Asg('a', '=', Ref('ID')), Ref('Sep'), Asg('b', '=', Ref('ID')))),
               Rule('Sep', Str(':'), ws='\n')], tags=['ws']),
+    # escape sequences in the ws modifier: \r and \t together with a blank
+    corpus.G('ws-escapes-cr-tab',
+             [Rule('M', S(Asg('ps', '+=', Ref('P')), Str('e'))),
+              Rule('P', S(Str('p'), Asg('n', '=', Ref('INT')), Str(';')), ws='\r\t ')], tags=['ws']),
     corpus.G('global-ws-comment', [Rule('M', S(Str('a'), Asg('xs', '+=', Ref('INT')))), corpus.COMMENT_BLOCK],
              tags=['ws'], ws=' \n'),
 ]
